@@ -1675,6 +1675,11 @@ class Pool:
     @staticmethod
     def _help_stuff_finish(inqueue, task_handler, _pool):
         # task_handler may be blocked trying to put items on inqueue
+        if not task_handler.is_alive():
+            # nothing to unblock (e.g. a pool without helper threads), and
+            # nobody would make an idle worker, which waits for work
+            # holding the read lock, give that lock up.
+            return
         debug('removing tasks from inqueue until task handler finished')
         inqueue._rlock.acquire()
         while task_handler.is_alive() and inqueue._reader.poll():
